@@ -299,6 +299,11 @@ def node(job):
                 m = types.ModuleType('sa_' + os.path.basename(path)[:-3])
                 exec(compile(open(path).read(), path, 'exec'), m.__dict__)
                 kw = dict(user)
+                if st.get('decoy'):
+                    # the generated module is instantiated more than once: an earlier instance with OTHER load-time options must leave
+                    # nothing behind in the module (its DATA / MEMO are module-level objects shared by all instantiations)
+                    m.Lark_StandAlone(propagate_positions=not plain.get('propagate_positions', False),
+                                      lexer_callbacks={'NAME': W.cb_tag, 'NUM': W.cb_inc, 'ID': W.cb_tag, 'WORD': W.cb_tag})
                 p = m.Lark_StandAlone(**kw)
                 tr[cfg + ':' + do] = beh(p, e, probes, {'TextSlice': m.TextSlice})
         except Exception as ex:
